@@ -120,7 +120,7 @@ SOLVERS = ["euler", "runge-kutta", "implicit", "crank-nicolson", "adams-bashfort
 
 def simulation_case(case):
     import numpy as np
-    from pde import PDE, CahnHilliardPDE, DataTracker, DiffusionPDE, ScalarField
+    from pde import PDE, CahnHilliardPDE, DataTracker, DiffusionPDE, FieldCollection, ScalarField
     from pde.solvers.base import ConvergenceError
 
     spec, eqname, solver, backend = case["grid"], case["eq"], case["solver"], case["backend"]
@@ -132,6 +132,11 @@ def simulation_case(case):
     red = case.get("reduced")
     for dt in (1e-4, 1e-3, 1e-1) if not red else (1e-3,):
         for steps in (1, 2, 5) if not red else (3,):
+            member, state0 = None, s0
+
+            def pick(st):
+                return st if member is None else st[member]
+
             if eqname == "diffusion":
                 eq = DiffusionPDE(0.7)
             elif eqname == "cahn-hilliard":
@@ -141,20 +146,31 @@ def simulation_case(case):
                 wall = {"derivative": 0.3} if eqname.endswith("derivative") else {"value": 0.5}
                 bc_c = {a: ("periodic" if p else wall) for a, p in zip(geo["axes"], geo["periodic"])}
                 eq = CahnHilliardPDE(0.6, bc_c=bc_c)
+            elif eqname.startswith("pde-two-fields"):
+                # two species with the same operator name under different per-variable conditions (bc_ops):
+                # one is absorbed at the walls, the other has zero flux => only the latter is conserved
+                def bcs(wall):
+                    return {a: ("periodic" if p else wall) for a, p in zip(geo["axes"], geo["periodic"])}
+
+                names = ("lost", "kept") if eqname.endswith("ab") else ("kept", "lost")
+                eq = PDE({nm: f"{0.4 + 0.3 * k} * laplace({nm})" for k, nm in enumerate(names)},
+                         bc_ops={"lost:laplace": bcs({"value": 0}), "kept:laplace": bcs({"derivative": 0})})
+                member = names.index("kept")
+                state0 = FieldCollection([s0.copy(label=names[0]), (s0 * 0.5 + 0.1).copy(label=names[1])])
             else:
                 eq = PDE({"c": "laplace(c**3 - c - 0.5*laplace(c))"})
             vals = []
-            tr = DataTracker(lambda st, t: vals.append(float(st.integral)) or 0.0, interrupts=dt)
+            tr = DataTracker(lambda st, t: vals.append(float(pick(st).integral)) or 0.0, interrupts=dt)
             kw = {} if solver != "scipy" else {}
             try:
                 with np.errstate(all="ignore"):
-                    res = eq.solve(s0, t_range=steps * dt, dt=dt, solver=solver, backend=backend, tracker=[tr], **kw)
+                    res = pick(eq.solve(state0, t_range=steps * dt, dt=dt, solver=solver, backend=backend, tracker=[tr], **kw))
             except (ConvergenceError, RuntimeError, FloatingPointError) as e:
                 outs.add(f"diverged:{type(e).__name__}")
                 continue
             n += 1
             vals.append(float(res.integral))
-            ref = float(s0.integral)
+            ref = float(pick(state0).integral)
             finite = [v for v in vals if math.isfinite(v)]
             amp = max(1.0, float(np.max(np.abs(res.data))) if np.all(np.isfinite(res.data)) else 1.0)
             if len(finite) < len(vals):
@@ -199,14 +215,16 @@ def main(run):
     sgrids = [["unit", [4], [False]], ["cart", [[0, 1], [-1, 3]], [3, 2], [True, False]], ["sph", [0.7, 2], 3], ["polar", 2, 4],
               ["cyl", 2, [0, 1], [3, 2], False], ["cart", [[0, 1], [0, 2], [-3, 3]], [2, 2, 2], [False, True, False]]]
     scases = [{"grid": g, "eq": e, "solver": s, "backend": b, "seed": run.seed}
-              for g in sgrids for e in ("diffusion", "cahn-hilliard", "cahn-hilliard-wall-derivative", "cahn-hilliard-wall-value", "pde-expression")
+              for g in sgrids for e in ("diffusion", "cahn-hilliard", "cahn-hilliard-wall-derivative", "cahn-hilliard-wall-value", "pde-expression",
+                                       "pde-two-fields-ab", "pde-two-fields-ba")
               for s in SOLVERS for b in ("numpy", "numba")]
     run.explore("checks.c05:simulation_case", scases, mode="I", part="(b) integral along simulations", limit=900)
     jcases = [{"grid": g, "eq": e, "solver": s, "backend": "numba", "seed": run.seed, "reduced": run.tier == "quick"}
               for g, e, s in [(sgrids[0], "diffusion", "euler"), (sgrids[1], "cahn-hilliard", "runge-kutta"), (sgrids[2], "cahn-hilliard", "euler"),
                               (sgrids[3], "pde-expression", "adams-bashforth"), (sgrids[4], "diffusion", "implicit"),
                               (sgrids[2], "diffusion", "crank-nicolson"), (sgrids[5], "cahn-hilliard", "euler"), (sgrids[3], "diffusion", "scipy"),
-                              (sgrids[0], "cahn-hilliard-wall-derivative", "euler"), (sgrids[4], "cahn-hilliard-wall-value", "runge-kutta")]]
+                              (sgrids[0], "cahn-hilliard-wall-derivative", "euler"), (sgrids[4], "cahn-hilliard-wall-value", "runge-kutta"),
+                              (sgrids[0], "pde-two-fields-ab", "euler"), (sgrids[4], "pde-two-fields-ba", "runge-kutta")]]
     run.explore("checks.c05:simulation_case", jcases, mode="J", part="(b) compiled simulations", chunksize=1, limit=2400)
     run.assumptions += [
         "(a) is decisive: every update of the listed solvers is a combination of rates in the range of L_bc, so a vanishing "
